@@ -494,7 +494,7 @@ inductive XL : Str → Str → Prop where
   | esc (pre t u : Str) : EscBody pre → XL t u → XL (92 :: (pre ++ t)) (92 :: (pre ++ u))
   | cls (b t u : Str) : ClsBody b → b.head? ≠ some 93 → b.head? ≠ some 94 → XL t u → XL (91 :: (b ++ t)) (91 :: (b ++ u))
   | lpn (t u : Str) : XL t u → XL (40 :: 63 :: 58 :: t) (40 :: 63 :: 58 :: u)
-  | lpc (t u : Str) : XL t u → t.head? ≠ some 63 → u.head? ≠ some 63 → XL (40 :: t) (40 :: u)
+  | lpc (t u : Str) : XL t u → (∃ h r, u = h :: r ∧ h ≠ 63) → XL (40 :: t) (40 :: u)
 
 theorem XL.strip {t u : Str} (h : XL t u) : XL (t.dropWhile isWs) u ∧ CleanHead (t.dropWhile isWs) := by
   induction h with
@@ -517,10 +517,10 @@ theorem XL.strip {t u : Str} (h : XL t u) : XL (t.dropWhile isWs) u ∧ CleanHea
     have hw : isWs 40 = false := by decide
     simp only [List.dropWhile, hw]
     exact ⟨XL.lpn t u ht, by intro d hd; simp at hd; subst hd; decide⟩
-  | lpc t u ht h1 h2 _ =>
+  | lpc t u ht h1 _ =>
     have hw : isWs 40 = false := by decide
     simp only [List.dropWhile, hw]
-    exact ⟨XL.lpc t u ht h1 h2, by intro d hd; simp at hd; subst hd; decide⟩
+    exact ⟨XL.lpc t u ht h1, by intro d hd; simp at hd; subst hd; decide⟩
 
 theorem XL.skip {t u : Str} (h : XL t u) :
     XL (skipSpace true (t.length + 1) t) u ∧ CleanHead (skipSpace true (t.length + 1) t) := by
@@ -563,6 +563,16 @@ theorem step_cls (x : Bool) (f : Nat) (c : Nat) (b0 r : Str) (h94 : c ≠ 94) (s
     ite_false, ite_true, Bool.false_eq_true, neg_match_x c (b0 ++ r) h94]
   rfl
 
+theorem XL.head_ne {v u : Str} (h : XL v u) (c : Nat) (hc : isWs c = false) (hu : u.head? ≠ some c) : v.head? ≠ some c := by
+  cases h with
+  | nil => simp
+  | ws d t u hw _ => simp; intro e; subst e; simp [hw] at hc
+  | raw => simpa using hu
+  | esc => simpa using hu
+  | cls => simpa using hu
+  | lpn => simpa using hu
+  | lpc => simpa using hu
+
 /-- after a quantifier: the laziness mark is looked for behind the white space -/
 theorem quant_tail (f : Nat) (ih : ∀ (t u : Str), XL t u → ∀ st al co, parseLoop true f t st al co = parseLoop false f u st al co)
     (t u : Str) (h : XL t u) (st : List Frame) (al : List Pat) (p : Pat) (mn : Nat) (mx : Option Nat) (ps : List Pat) :
@@ -600,7 +610,7 @@ theorem quant_tail (f : Nat) (ih : ∀ (t u : Str), XL t u → ∀ st al co, par
   | esc pre t' u' hp ht' => exact ih t _ h st al _
   | cls b t' u' hb h1 h2' ht' => exact ih t _ h st al _
   | lpn t' u' ht' => exact ih t _ h st al _
-  | lpc t' u' ht' h1 h2' => exact ih t _ h st al _
+  | lpc t' u' ht' h1 => exact ih t _ h st al _
 
 /-- the loop starts by skipping white space -/
 theorem parseLoop_skip (f : Nat) (t : Str) (hc : CleanHead (skipSpace true (t.length + 1) t)) (st : List Frame) (al co : List Pat) :
@@ -687,7 +697,10 @@ theorem parseLoop_x : ∀ (f : Nat) (t u : Str), XL t u → ∀ (st : List Frame
       rw [parseLoop, parseLoop, skipSpace_clean _ _ hc]
       simp only [skipSpace_false, show ((40 : Nat) = 124) = False from by decide, ite_false, ite_true]
       exact ih t' u' ht' _ _ _
-    | lpc t' u' ht' ht63 hu63 =>
+    | lpc t' u' ht' hu =>
+      obtain ⟨hh, hr, rfl, hne⟩ := hu
+      have hu63 : (hh :: hr).head? ≠ some 63 := by simpa using hne
+      have ht63 : t'.head? ≠ some 63 := ht'.head_ne 63 (by decide) hu63
       rw [parseLoop, parseLoop, skipSpace_clean _ _ hc]
       simp only [skipSpace_false, show ((40 : Nat) = 124) = False from by decide, ite_false, ite_true]
       have e1 : ∀ (x : Bool) (r : Str), r.head? ≠ some 63 →
@@ -700,7 +713,7 @@ theorem parseLoop_x : ∀ (f : Nat) (t u : Str), XL t u → ∀ (st : List Frame
         · simp at hr
         · simp at hr
         · rfl
-      exact ((e1 true t' ht63).trans (ih t' u' ht' _ _ _)).trans (e1 false u' hu63).symm
+      exact ((e1 true t' ht63).trans (ih t' _ ht' _ _ _)).trans (e1 false _ hu63).symm
 
 /-! ### no lexeme contains a line feed -/
 
@@ -728,14 +741,5 @@ theorem ClsBody.noLF {b : Str} (h : ClsBody b) : 10 ∉ b := by
     simp only [List.mem_cons, List.mem_append, not_or]
     exact ⟨by decide, hp.noLF, ih⟩
 
-theorem XL.head_ne {v u : Str} (h : XL v u) (c : Nat) (hc : isWs c = false) (hu : u.head? ≠ some c) : v.head? ≠ some c := by
-  cases h with
-  | nil => simp
-  | ws d t u hw _ => simp; intro e; subst e; simp [hw] at hc
-  | raw => simpa using hu
-  | esc => simpa using hu
-  | cls => simpa using hu
-  | lpn => simpa using hu
-  | lpc => simpa using hu
 
 end Grexv
